@@ -110,6 +110,14 @@ std::vector<Val> grid_points(const Plan &p, int variant, uint32_t j) {
   }
   std::vector<Val> out;
   for (int64_t v : xs) out.push_back(dy(v, 16));
+#ifndef SIM_EXACT
+  if (variant == 9) {
+    // same points, but a grid point that is zero carries the other sign bit:
+    // logically equal (-0.0 == 0.0), distinguishable only by bit pattern
+    for (auto &v : out)
+      if (v == 0.0) v = -0.0;
+  }
+#endif
   if (variant == 8) {
     // one point nudged by the smallest representable amount: grids that differ
     // logically although any tolerance-based comparison would call them equal
